@@ -4,7 +4,7 @@ from __future__ import annotations
 import ast
 import re
 
-from sa.core import AnalysisError, call_name, const, text
+from sa.core import AnalysisError, call_name, const, resolve_collection, text
 
 HAS_LETTER = re.compile('[A-Za-z]')
 SKIP = ('cssutils/sac.py', 'cssutils/css/cssvalue.py', 'cssutils/css2productions.py', 'conftest.py')
@@ -29,6 +29,10 @@ def run(chk):
     from .c16 import r16b
 
     r16b(chk, 'R02.d')
+    from .c04 import r02f
+
+    r02f(chk)
+    r02g(chk)
 
 
 def lit_strings(node):
@@ -131,6 +135,10 @@ def raw_comparisons(repo):
                             lits = lit_strings(b)
                             if isinstance(b, ast.Name) and b.id in tables:
                                 lits = tables[b.id]
+                            elif not lits and isinstance(b, (ast.Name, ast.Call)):
+                                # a named (module level) collection of keywords, possibly wrapped in frozenset()/tuple()
+                                elts = resolve_collection(m, fn, b, dicts=True)
+                                lits = [x for e in (elts or []) for x in lit_strings(e)]
                             if text(b).endswith('MarginRule.margins') and margins:
                                 lits = margins
                             if [x for x in lits if HAS_LETTER.search(x)]:
@@ -187,11 +195,7 @@ def r02c(chk, rid='R02.c'):
         if isinstance(x, ast.If) and '_doComments' in text(x.test):
             n += 1
             inner = x.body + x.orelse
-            only = all(isinstance(s, ast.Expr) and isinstance(s.value, (ast.Yield, ast.YieldFrom)) for s in inner) or (
-                # the truncated-comment completion: yield, consume the rest, leave the loop
-                all(isinstance(s, (ast.Expr, ast.Assign, ast.Break)) for s in inner) and any(isinstance(s, ast.Expr) and isinstance(s.value, ast.Yield) for s in inner)
-                and all(text(s) in ('pos = _len_text', 'break') or isinstance(s, ast.Expr) for s in inner) and 'match' in text(x.test)
-            )
+            only = all(isinstance(s, ast.Expr) and isinstance(s.value, (ast.Yield, ast.YieldFrom)) for s in inner)
             chk.ob(rid, 'cssutils/tokenize2.py', 'Tokenizer.tokenize', f'`if {text(x.test)[:60]}` guards only the yield', only,
                    'statements other than the yield depend on the comment switch: ' + '; '.join(text(s)[:40] for s in inner))
     if n < 2:
@@ -199,3 +203,31 @@ def r02c(chk, rid='R02.c'):
     # the switch is read nowhere else
     others = [tm.qualname_of(x) for x in ast.walk(tm.tree) if isinstance(x, ast.Attribute) and x.attr == '_doComments' and isinstance(x.ctx, ast.Load) and tm.qualname_of(x) != 'Tokenizer.tokenize']
     chk.ob(rid, 'cssutils/tokenize2.py', 'Tokenizer', '_doComments is read only in tokenize', not others, str(others))
+
+
+def r02g(chk, rid='R02.g'):
+    chk.rule(rid, 'disabling comment parsing removes exactly the comment tokens, decided by evaluation: Tokenizer.tokenize (evaluated on its syntax tree as in R05.i) is run with the comment switch on and off on every text made of a comment piece - complete, multi-line, or left open at the end of input - before, behind or between other token texts: the stream with the switch off is the stream with the switch on minus its COMMENT tokens, with the same types, values, lines, columns and offsets')
+    import itertools
+
+    from sa.absint import Raised
+
+    from .c05 import PIECES, tokenize_text
+
+    comments = [p for p in PIECES if p.startswith('/*')]
+    if len(comments) < 3:
+        raise AnalysisError('R02.g: comment pieces vanished from the corpus')
+    texts = set()
+    for c in comments:
+        for a in PIECES:
+            texts |= {c + a, a + c, a + c + a}
+    bad = []
+    for t in sorted(texts):
+        for full in (True, False):
+            on = tokenize_text(chk.repo, t, fullsheet=full, comments=True)
+            off = tokenize_text(chk.repo, t, fullsheet=full, comments=False)
+            if isinstance(on, Raised) or isinstance(off, Raised) or [x for x in on if x[0] != 'COMMENT'] != off:
+                bad.append(t)
+                break
+    chk.extra['comment_switch_texts'] = len(texts)
+    chk.ob(rid, 'cssutils/tokenize2.py', 'Tokenizer.tokenize', f'the comment switch only filters COMMENT tokens ({len(texts)} texts)', not bad,
+           f'{len(bad)} texts differ beyond their comments, e.g. {bad[:2]!r}: a sheet parsed with parseComments=False has other tokens or positions than with comments')
